@@ -26,6 +26,7 @@ from . import core
 SRCS = ['datastruct/ptrheap.c', 'datastruct/timerqueue.c',
         'datastruct/elasticarray.c']
 WRAPS = ('malloc', 'calloc', 'realloc', 'free', 'strdup')
+BATCH = 250
 
 
 def build(ctx):
@@ -37,7 +38,7 @@ def build(ctx):
 
 def gen_cases(seed, tier, shard):
     rnd = random.Random(seed)
-    scale = 1 if tier == 'quick' else 15
+    scale = 1 if tier == 'quick' else 80
     cases = []
 
     def add(kind, line):
@@ -114,8 +115,15 @@ def _shard(a):
     exe, seed, tier, i = a
     cases = gen_cases(seed, tier, i)
     st = {}
-    r = core.line_shard(exe, cases, judge=make_judge(st))
-    r['stats'] = st
+    r = {'evals': 0, 'sigs': set(), 'alarms': [], 'stats': st}
+    # Batches keep one driver invocation short, so that the watchdog only
+    # fires on a real hang and not on a busy machine.
+    for k in range(0, len(cases), BATCH):
+        b = core.line_shard(exe, cases[k:k + BATCH], judge=make_judge(st),
+                            timeout=1800)
+        r['evals'] += b['evals']
+        r['sigs'] |= b['sigs']
+        r['alarms'] += b['alarms']
     r['samples'] = [c['line'] for c in cases[:1]]
     return r
 
